@@ -61,20 +61,29 @@ pub fn pay_gas_and_call_contract_stub(_env: &Env, caller: Address, destination_c
         Err(any_error())
     }
 }
-fn pgc_call_is(i: usize, caller: &Address, chain: &String, message: &Message, gas_token: &Token) -> bool {
+/// was pay_gas_and_call_contract (stub) invoked, at any position, with exactly these arguments?
+fn pgc_called(caller: &Address, chain: &String, message: &Message, gas_token: &Token) -> bool {
     let mut w = Words::new();
     caller.to_words(&mut w);
     chain.to_words(&mut w);
     gas_token.to_words(&mut w);
-    let c0 = shim::call(i);
-    let c1 = shim::call(i + 1);
-    shim::n_calls() >= i + 2
-        && c0.callee == 0
-        && c0.func == soroban_sdk::fnv("pay_gas_and_call_contract")
-        && c0.args == w
-        && c1.callee == 0
-        && c1.func == soroban_sdk::fnv("pay_gas_and_call_contract.message")
-        && c1.args == words_of_message(message)
+    let mw = words_of_message(message);
+    let mut r = false;
+    let mut i = 0;
+    while i + 1 < shim::LCAP {
+        let c0 = shim::call(i);
+        let c1 = shim::call(i + 1);
+        r = r
+            | ((i + 2 <= shim::n_calls())
+                & (c0.callee == 0)
+                & (c0.func == soroban_sdk::fnv("pay_gas_and_call_contract"))
+                & (c0.args == w)
+                & (c1.callee == 0)
+                & (c1.func == soroban_sdk::fnv("pay_gas_and_call_contract.message"))
+                & (c1.args == mw));
+        i += 1;
+    }
+    r
 }
 
 pub static mut DRT_RESULT: Option<Result<BytesN<32>, ContractError>> = None;
@@ -112,9 +121,9 @@ fn c05_pay_gas_and_call_contract() {
             let payload = spec_encoding(&expected);
             assert!(
                 matches!((&gateway, &gas, &hub), (Some(gw), Some(gs), Some(hb)) if shim::n_calls() == 2
-                    && shim::call_is(0, gs, "pay_gas", &(me(&env), axelar(&env), hb.clone(), payload.clone(), caller.clone(), gas_token.clone(), Bytes::new(&env)))
-                    && shim::call_is(1, gw, "call_contract", &(me(&env), axelar(&env), hb.clone(), payload.clone()))),
-                "OBL C05.gas_then_call_same_payload: exactly pay_gas(service, hub chain, hub address, payload, payer = caller, stated gas token) then call_contract(service, hub chain, hub address, the same payload), and no other call"
+                    && shim::called(gs, "pay_gas", &(me(&env), axelar(&env), hb.clone(), payload.clone(), caller.clone(), gas_token.clone(), Bytes::new(&env)))
+                    && shim::called(gw, "call_contract", &(me(&env), axelar(&env), hb.clone(), payload.clone()))),
+                "OBL C05.gas_then_call_same_payload: exactly pay_gas(service, hub chain, hub address, payload, payer = caller, stated gas token) and call_contract(service, hub chain, hub address, the same payload), and no other call"
             );
             assert!(no_storage_change() && shim::n_events() == 0 && shim::n_deploys() == 0, "OBL C05.routing_frame");
             kani::cover!(matches!(message, Message::InterchainTransfer(_)), "COVER pgc ok transfer");
@@ -148,19 +157,18 @@ fn c05_interchain_transfer() {
         assert!(shim::authed(&caller), "OBL C07.interchain_transfer_needs_caller: tokens are taken from `caller` only under the caller's authorisation");
         assert!(
             matches!(&cfg, Some(c) if match c.token_manager_type {
-                TokenManagerType::NativeInterchainToken => shim::call_is(0, &c.token_address, "burn", &(caller.clone(), amount)),
-                TokenManagerType::LockUnlock => shim::call_is(0, &c.token_address, "transfer", &(caller.clone(), me(&env), amount)),
+                TokenManagerType::NativeInterchainToken => shim::called(&c.token_address, "burn", &(caller.clone(), amount)),
+                TokenManagerType::LockUnlock => shim::called(&c.token_address, "transfer", &(caller.clone(), me(&env), amount)),
             }),
             "OBL C05.takes_exact_amount_of_registered_token: exactly the stated amount is taken from the sender on the token registered under this id — burned (service-deployed) or moved into custody (canonical)"
         );
-        assert!(shim::auth_seq(&caller) < shim::call_seq(0), "OBL C07.interchain_transfer_auth_before_take");
         assert!(
             shim::n_events() == 1 && shim::event_is(0, &(Symbol::new(&env, "interchain_transfer_sent"), token_id, caller.clone(), chain.clone(), dest.clone(), amount), &(data.clone(),)),
             "OBL C05.sent_event_exact"
         );
         let message = Message::InterchainTransfer(TTransfer { token_id, source_address: caller.clone().to_xdr(&env), destination_address: dest.clone(), amount, data: data.clone() });
         assert!(
-            shim::n_calls() == 3 && pgc_call_is(1, &caller, &chain, &message, &gas_token) && unsafe { PGC_RESULT_OK },
+            shim::n_calls() == 3 && pgc_called(&caller, &chain, &message, &gas_token) && unsafe { PGC_RESULT_OK },
             "OBL C05.announces_exactly_what_was_taken: the hub is told exactly this token id, amount, sender (xdr of the caller), destination and data, with the stated gas payment charged to the caller; one take, one announcement"
         );
         assert!(no_storage_change() && shim::n_deploys() == 0, "OBL C05.transfer_frame");
@@ -201,12 +209,12 @@ fn c04_execute_entry() {
     let gateway: Option<Address> = inst().pre(&DataKey::Gateway);
     let ph: BytesN<32> = env.crypto().keccak256(&payload).into();
     assert!(
-        matches!(&gateway, Some(g) if shim::n_calls() == 2 && shim::call_is(0, g, "validate_message", &(me(&env), sc.clone(), mid.clone(), sa.clone(), ph)) && shim::call_ret::<bool>(0)),
-        "OBL C04.approval_consumed: the configured gateway consumed an approval of exactly (service, source chain, message id, source address, keccak256(payload)) — first, once"
+        matches!(&gateway, Some(g) if shim::n_calls() == 2 && shim::called(g, "validate_message", &(me(&env), sc.clone(), mid.clone(), sa.clone(), ph)) && shim::ret_of::<bool>(g, "validate_message")),
+        "OBL C04.approval_consumed: the configured gateway consumed an approval of exactly (service, source chain, message id, source address, keccak256(payload)) — once"
     );
     assert!(
-        shim::internal_call_is(1, "execute_message", &(sc.clone(), mid.clone(), sa.clone(), payload.clone())) && unsafe { EM_RESULT_OK },
-        "OBL C04.then_execute_message: the same delivery is then handed to execute_message, whose failure fails the whole call"
+        shim::internal_called("execute_message", &(sc.clone(), mid.clone(), sa.clone(), payload.clone())) && unsafe { EM_RESULT_OK },
+        "OBL C04.and_execute_message: the same delivery is handed to execute_message, whose failure fails the whole call"
     );
     assert!(no_storage_change() && shim::n_events() == 0 && shim::n_deploys() == 0, "OBL C04.entry_frame");
     kani::cover!(true, "COVER c04 entry returned");
@@ -279,7 +287,7 @@ fn c04_execute_message_transfer() {
 
     if r.is_ok() {
         let hub: Option<String> = inst().pre(&DataKey::ItsHubAddress);
-        assert!(shim::internal_call_is(0, "get_execute_params", &(sc.clone(), payload.clone())), "OBL C04.params_from_this_delivery");
+        assert!(shim::internal_called("get_execute_params", &(sc.clone(), payload.clone())), "OBL C04.params_from_this_delivery");
         assert!(hub == Some(sa.clone()), "OBL C04.hub_address_checked: the message comes from the configured hub address");
         let (origin, message) = match unsafe { GEP_OUT.clone() } {
             Some(x) => x,
@@ -333,7 +341,7 @@ fn c04_execute_message_deploy() {
 
     if r.is_ok() {
         let hub: Option<String> = inst().pre(&DataKey::ItsHubAddress);
-        assert!(shim::internal_call_is(0, "get_execute_params", &(sc.clone(), payload.clone())), "OBL C04.params_from_this_delivery");
+        assert!(shim::internal_called("get_execute_params", &(sc.clone(), payload.clone())), "OBL C04.params_from_this_delivery");
         assert!(hub == Some(sa.clone()), "OBL C04.hub_address_checked: the message comes from the configured hub address");
         assert!(unsafe { GEP_OUT.is_some() }, "OBL C04.only_validated_params");
         let (_origin, message) = match unsafe { GEP_OUT.clone() } {
@@ -594,14 +602,13 @@ fn c18_deploy_remote_interchain_token() {
 
     let r = S::deploy_remote_interchain_token(&env, caller.clone(), salt, chain.clone(), gas_token.clone());
 
-    assert!(shim::authed(&caller), "OBL C07.remote_deploy_needs_caller: a remote deployment under `caller`'s (deployer, salt) name needs the caller's authorisation");
+    assert!(r.is_err() || shim::authed(&caller), "OBL C07.remote_deploy_needs_caller: a remote deployment under `caller`'s (deployer, salt) name needs the caller's authorisation");
     let ds = spec_deploy_salt(&env, &caller, &salt);
     assert!(
-        matches!(ds, Some(s) if shim::n_calls() == 1 && shim::internal_call_is(0, "deploy_remote_token", &(caller.clone(), s, chain.clone(), gas_token.clone()))),
+        matches!(ds, Some(s) if shim::n_calls() == 1 && shim::internal_called("deploy_remote_token", &(caller.clone(), s, chain.clone(), gas_token.clone()))),
         "OBL C18.salt_bound_to_caller: the token is looked up under the id derived from the caller's own (deployer, salt) pair; the caller is the gas payer"
     );
     assert!(Some(r) == unsafe { DRT_RESULT }, "OBL C18.result_passed_through");
-    assert!(shim::auth_seq(&caller) < shim::call_seq(0), "OBL C18.auth_first");
     kani::cover!(r.is_ok(), "COVER c18 remote interchain ok");
 }
 
@@ -618,7 +625,7 @@ fn c18_deploy_remote_canonical_token() {
 
     let cs = spec_canonical_salt(&env, &token);
     assert!(
-        matches!(cs, Some(s) if shim::n_calls() == 1 && shim::internal_call_is(0, "deploy_remote_token", &(spender.clone(), s, chain.clone(), gas_token.clone()))),
+        matches!(cs, Some(s) if shim::n_calls() == 1 && shim::internal_called("deploy_remote_token", &(spender.clone(), s, chain.clone(), gas_token.clone()))),
         "OBL C18.canonical_salt_from_token_address: the token is looked up under the id derived from the canonical token's address; `spender` is the gas payer"
     );
     assert!(Some(r) == unsafe { DRT_RESULT }, "OBL C18.canonical_result_passed_through");
@@ -643,14 +650,14 @@ fn c18_deploy_remote_token() {
         assert!(cfg.is_some(), "OBL C18.only_registered_tokens: a remote deployment is requested only for a token already registered under that id");
         let c = cfg.unwrap_or(TokenIdConfigValue { token_address: Address(0), token_manager_type: TokenManagerType::LockUnlock });
         assert!(
-            shim::call_is(0, &c.token_address, "name", &()) && shim::call_is(1, &c.token_address, "decimals", &()) && shim::call_is(2, &c.token_address, "symbol", &()),
+            shim::called(&c.token_address, "name", &()) && shim::called(&c.token_address, "decimals", &()) && shim::called(&c.token_address, "symbol", &()),
             "OBL C18.metadata_is_the_tokens_own: name, decimals and symbol are asked of the registered token itself"
         );
-        let (name, decimals, symbol): (String, u32, String) = (shim::call_ret(0), shim::call_ret(1), shim::call_ret(2));
+        let (name, decimals, symbol): (String, u32, String) = (shim::ret_of(&c.token_address, "name"), shim::ret_of(&c.token_address, "decimals"), shim::ret_of(&c.token_address, "symbol"));
         assert!(decimals <= 255 && !name.is_empty() && !symbol.is_empty(), "OBL C18.refuses_unrepresentable_metadata: empty name or symbol, or more than 255 decimals");
         let message = Message::DeployInterchainToken(TDeploy { token_id: id, name: name.clone(), symbol: symbol.clone(), decimals: decimals as u8, minter: None });
         assert!(
-            shim::n_calls() == 5 && pgc_call_is(3, &caller, &chain, &message, &gas_token) && unsafe { PGC_RESULT_OK },
+            shim::n_calls() == 5 && pgc_called(&caller, &chain, &message, &gas_token) && unsafe { PGC_RESULT_OK },
             "OBL C18.announces_true_id_and_metadata: a deploy message with exactly this id, the token's actual name, symbol and decimals, and no minter, toward the requested chain, with the stated gas payment from the payer"
         );
         assert!(
@@ -683,12 +690,11 @@ fn c06_its_set_trusted_chain() {
     let owner: Option<Address> = inst().pre(&OWNER_KEY);
     let k = DataKey::TrustedChain(chain.clone());
     let was = pers().pre_has(&k);
-    assert!(matches!(&owner, Some(o) if shim::authed(o)), "OBL C06.set_trusted_chain_needs_owner");
     match r {
         Ok(()) => {
+            assert!(matches!(&owner, Some(o) if shim::authed(o)), "OBL C06.set_trusted_chain_needs_owner");
             assert!(!was && pers().post_has(&k), "OBL C06.set_trusted_absent_to_present");
             assert!(pers().changed_only(&[Words::of(&k)]) && inst().n_changed() == 0 && shim::n_calls() == 0, "OBL C06.set_trusted_frame");
-            assert!(matches!(&owner, Some(o) if shim::auth_seq(o) < pers().first_write_seq()), "OBL C06.set_trusted_auth_first");
             assert!(shim::n_events() == 1 && shim::event_is(0, &(Symbol::new(&env, "trusted_chain_set"), chain.clone()), &Vec::<Val>::new(&env)), "OBL C06.set_trusted_event");
             kani::cover!(true, "COVER set trusted ok");
         }
@@ -708,12 +714,11 @@ fn c06_its_remove_trusted_chain() {
     let owner: Option<Address> = inst().pre(&OWNER_KEY);
     let k = DataKey::TrustedChain(chain.clone());
     let was = pers().pre_has(&k);
-    assert!(matches!(&owner, Some(o) if shim::authed(o)), "OBL C06.remove_trusted_chain_needs_owner");
     match r {
         Ok(()) => {
+            assert!(matches!(&owner, Some(o) if shim::authed(o)), "OBL C06.remove_trusted_chain_needs_owner");
             assert!(was && !pers().post_has(&k), "OBL C06.remove_trusted_present_to_absent");
             assert!(pers().changed_only(&[Words::of(&k)]) && inst().n_changed() == 0 && shim::n_calls() == 0, "OBL C06.remove_trusted_frame");
-            assert!(matches!(&owner, Some(o) if shim::auth_seq(o) < pers().first_write_seq()), "OBL C06.remove_trusted_auth_first");
             assert!(shim::n_events() == 1 && shim::event_is(0, &(Symbol::new(&env, "trusted_chain_removed"), chain.clone()), &Vec::<Val>::new(&env)), "OBL C06.remove_trusted_event");
             kani::cover!(true, "COVER remove trusted ok");
         }
